@@ -29,3 +29,119 @@ nni_plat_abort(void)
 	CHECK(0, "nni_plat_abort reached");
 	ASSUME(0);
 }
+
+/* ---- statistics and logging: empty bodies (never the subject) ---------- */
+#include "core/nng_impl.h"
+#ifdef NNG_ENABLE_STATS
+void
+nni_stat_init(nni_stat_item *item, const nni_stat_info *info)
+{
+	(void) item;
+	(void) info;
+}
+void
+nni_stat_add(nni_stat_item *parent, nni_stat_item *child)
+{
+	(void) parent;
+	(void) child;
+}
+void
+nni_stat_inc(nni_stat_item *item, uint64_t n)
+{
+	(void) item;
+	(void) n;
+}
+void
+nni_stat_dec(nni_stat_item *item, uint64_t n)
+{
+	(void) item;
+	(void) n;
+}
+void
+nni_stat_set_value(nni_stat_item *item, uint64_t n)
+{
+	(void) item;
+	(void) n;
+}
+void
+nni_stat_set_id(nni_stat_item *item, int id)
+{
+	(void) item;
+	(void) id;
+}
+void
+nni_stat_set_bool(nni_stat_item *item, bool b)
+{
+	(void) item;
+	(void) b;
+}
+void
+nni_stat_set_string(nni_stat_item *item, const char *s)
+{
+	(void) item;
+	(void) s;
+}
+void
+nni_stat_unregister(nni_stat_item *item)
+{
+	(void) item;
+}
+void
+nni_stat_register(nni_stat_item *item)
+{
+	(void) item;
+}
+#endif
+void
+nng_log_warn(const char *id, const char *fmt, ...)
+{
+	(void) id;
+	(void) fmt;
+}
+void
+nng_log_err(const char *id, const char *fmt, ...)
+{
+	(void) id;
+	(void) fmt;
+}
+void
+nng_log_info(const char *id, const char *fmt, ...)
+{
+	(void) id;
+	(void) fmt;
+}
+void
+nng_log_debug(const char *id, const char *fmt, ...)
+{
+	(void) id;
+	(void) fmt;
+}
+void
+nng_log_notice(const char *id, const char *fmt, ...)
+{
+	(void) id;
+	(void) fmt;
+}
+int
+nni_plat_pipe_open(int *wfd, int *rfd)
+{
+	(void) wfd;
+	(void) rfd;
+	return (NNG_ENOTSUP);
+}
+void
+nni_plat_pipe_raise(int fd)
+{
+	(void) fd;
+}
+void
+nni_plat_pipe_clear(int fd)
+{
+	(void) fd;
+}
+void
+nni_plat_pipe_close(int a, int b)
+{
+	(void) a;
+	(void) b;
+}
